@@ -146,8 +146,8 @@ func (c *logbuf) Gen(r *rand.Rand, tier string, emit func(string)) {
 	for i := 0; i < 7; i++ {
 		wr()
 	}
-	for _, o := range []int{-1 << 62, -1 << 31, 1 << 31, 1 << 62, 3} {
-		for _, l := range []int{-1 << 62, 1 << 62, 1 << 31, 2} {
+	for _, o := range []int{-1 << 63, -1 << 62, -1 << 31, 1 << 31, 1 << 62, 1<<63 - 1, 3} {
+		for _, l := range []int{-1 << 63, -1 << 62, 1 << 62, 1<<63 - 1, 1 << 31, 2} {
 			emit(fmt.Sprintf("range %d %d", o, l))
 		}
 	}
